@@ -8,7 +8,9 @@ Model: `Model/Emulator.lean` (`new`, `mustIP`, `step`, `eval`, `regValue`, `eval
 assumption `LookupExact`: that `deps.Code.Address` + `Block.Address` implement this lookup is C07), the
 instructions lifted by the front end (`liftCode`: `Riscv.parse (instructionSet 64 true true)` + `constFold`).
 The model follows the REPAIRED code: F03 (`memValue` folds what `Mems.Load` returns before the type
-assertion) and F70 (a register is requested at the greatest width the code uses it with).
+assertion), F70 (a register is requested at the greatest width the code uses it with) and F45 (`checkAccess`:
+an access that does not fit the address space, `addr + w ≥ 2^64`, makes `Step` return an error instead of
+panicking inside the memories; nothing is applied, the instruction pointer stays).
 
 Reference: `Spec.Rv.exec 64` (`Spec/Riscv.lean`); `Spec.Lift.Rel ρ σ` = the valuation `ρ` of the IR's
 registers/memories represents the machine state `σ`; `Agree p code ρ s` = the emulator state `s` and the
@@ -25,8 +27,14 @@ PROVED here (for every provider, image, state, step count — no sampling):
                         and bytes read and written with the reference's values), or is the error exactly when the
                         reference's `pc` is not at an instruction of the code.
   Its parts, each a theorem of its own:
-* `never_panics`        a step from a ready state is an error iff no instruction starts at the instruction
-                        pointer, never a panic (in particular not the F03 panic); whole runs;
+* `never_panics_step`, `never_panics`, `never_panics_of_image`
+                        UNCONDITIONAL IN THE ACCESSES (REPAIR F45): from a ready state, for every provider and every
+                        instruction, a step is never a panic: it is the error iff no instruction starts at the
+                        instruction pointer; otherwise it succeeds, or it is the access error — some access of the
+                        instruction has `addr + w ≥ 2^64` — and then the state results from provider fills only
+                        (`failed_step_keeps_state`: every register and byte the state held keeps its value, the
+                        instruction pointer is the same, nothing of the instruction was applied).  Whole runs too.
+                        `never_panics_step_in_domain`: with all accesses in C14's domain there is no access error;
 * `load_folds_to_constant` whatever a memory that stores constants returns folds to a constant (REPAIR F03);
 * `eval_is_value`       the constant `eval` computes = `Expr.eval` under the represented valuation (C09);
 * `step_is_applyEffects` one step = `Spec.Lift.Env.applyEffects` + `nextIp` on the represented valuation;
@@ -97,8 +105,52 @@ theorem memory_shape (p : Provider) (code : CodeView) {σ : St} {s : State} {ins
 
 /-! ### never a panic; an error exactly when no instruction starts at the instruction pointer -/
 
-/-- one step, from any ready state of any (well-formed) code, whatever the provider answers -/
+/-- ONE STEP NEVER PANICS — from any ready state of any well-formed code, whatever the provider answers and
+WHATEVER MEMORY THE INSTRUCTION ACCESSES (no `addr + w < 2^64` hypothesis; REPAIR F45).  `Step` returns the
+error iff no instruction starts at the instruction pointer.  Otherwise it succeeds (provider fills `log`, then the
+program's writes, ready again), or it returns the access error `accessErr s1 log a w`: an access `[a, a+w)` of the
+instruction does not fit the address space (`2^64 ≤ a + w`, so the step is outside `StepDom`); the state `s1` it
+leaves results from `s` by the provider calls `log` of the failed step alone (`Fill`: each for state unknown at
+its moment, its answer stored — these are facts about the environment), no effect was applied, the instruction
+pointer holds the same constant, and `s1` is ready: the emulator can be used further. -/
 theorem never_panics_step (p : Provider) (code : CodeView) {s : State} (hr : Ready s) (hw : CodeWF code)
+    (hs : CodeSW code) :
+    ∃ c, assocGet Emulator.ipKey s.regs = some (.const c) ∧
+      match code.lookup (leToNat c % 2 ^ 64) with
+      | none => step p code s = .err
+      | some ins =>
+        (∃ s1 s2 log rep,
+          step p code s = .ok (finish ins (ins.effects.any isJump) s2) rep log ∧
+          Fill p s log s1 ∧ Applied s1 (ins.effects.map (evalEff s1)) s2 ∧
+          Ready (finish ins (ins.effects.any isJump) s2)) ∨
+        (∃ s1 log a w, step p code s = .accessErr s1 log a w ∧ Fill p s log s1 ∧ Ready s1 ∧
+          assocGet Emulator.ipKey s1.regs = some (.const c) ∧ 2 ^ 64 ≤ a + w ∧ ¬ StepDom p code s ins) :=
+  step_ready_total p code hr hw hs
+
+/-- … in particular a step is NEVER a panic -/
+theorem step_is_no_panic (p : Provider) (code : CodeView) {s : State} (hr : Ready s) (hw : CodeWF code)
+    (hs : CodeSW code) (x : Emulator.Panic) : step p code s ≠ .panic x := by
+  obtain ⟨c, _, hm⟩ := step_ready_total p code hr hw hs
+  intro hx
+  cases hl : code.lookup (leToNat c % 2 ^ 64) with
+  | none => rw [hl] at hm; simp only at hm; rw [hm] at hx; cases hx
+  | some ins =>
+    rw [hl] at hm
+    rcases hm with ⟨_, _, _, _, h, _⟩ | ⟨_, _, _, _, h, _⟩ <;> (rw [h] at hx; cases hx)
+
+/-- what a failed step leaves behind (the state after `Fill`): every register and every byte the state held —
+pre-set, written by the program, supplied earlier — is still there with its value; what was added was unknown
+before and is the provider's answer -/
+theorem failed_step_keeps_state {p : Provider} {s s1 : State} {log : List Req} (hf : Fill p s log s1)
+    (hi : Inv s) :
+    (∀ k e, assocGet k s.regs = some e → assocGet k s1.regs = some e) ∧
+    (∀ key x b, s.mems.abs key x = some b → s1.mems.abs key x = some b) ∧
+    (∀ r ∈ log, Unknown s r ∧ Supplied p s1 r) :=
+  ⟨hf.rext, hf.mext hi, fun r hr => ⟨hf.unknown hi r hr, hf.supplied hi r hr⟩⟩
+
+/-- with all accesses of the step in the domain of C14 (`addr + w < 2^64`) there is no access error: the statement
+C03 carried before the repair of F45 -/
+theorem never_panics_step_in_domain (p : Provider) (code : CodeView) {s : State} (hr : Ready s) (hw : CodeWF code)
     (hd : ∀ c ins, assocGet Emulator.ipKey s.regs = some (.const c) →
       code.lookup (leToNat c % 2 ^ 64) = some ins → StepDom p code s ins) :
     ∃ c, assocGet Emulator.ipKey s.regs = some (.const c) ∧
@@ -110,8 +162,23 @@ theorem never_panics_step (p : Provider) (code : CodeView) {s : State} (hr : Rea
           Ready (finish ins (ins.effects.any isJump) s2) :=
   step_ready p code hr hw hd
 
-/-- whole runs: no outcome of any step is a panic, and the run ends in a ready state -/
-theorem never_panics (p : Provider) (code : CodeView) (hw : CodeWF code) (n : Nat) (s : State)
+/-- WHOLE RUNS, WHATEVER THE ACCESSES: no outcome of any step is a panic, and the run ends in a ready state (a run
+ends with the first error: no instruction at the instruction pointer, or an access outside the address space) -/
+theorem never_panics (p : Provider) (code : CodeView) (hw : CodeWF code) (hs : CodeSW code) (n : Nat) (s : State)
+    (hr : Ready s) :
+    Ready (run p code n s).2 ∧ ∀ o ∈ (run p code n s).1, match o with | .panic _ => False | _ => True :=
+  let h := run_total p code hw hs n s hr
+  ⟨h.1, h.2.1⟩
+
+/-- … for the code the tool runs on — the lifting of the code blocks of an image — with no hypothesis on the code
+at all (`CodeWF` and `CodeSW` are theorems, `code_of_image_wellformed`) -/
+theorem never_panics_of_image (p : Provider) {blocks : List (Nat × List UInt8)} {code : CodeView}
+    (hc : liftCode blocks = some code) (n : Nat) (s : State) (hr : Ready s) :
+    Ready (run p code n s).2 ∧ ∀ o ∈ (run p code n s).1, match o with | .panic _ => False | _ => True :=
+  never_panics p code (codeWF_of_liftCode hc) (codeSW_of_liftCode hc) n s hr
+
+/-- whole runs inside the domain of C14 (the statement before the repair of F45; needs no `CodeSW`) -/
+theorem never_panics_in_domain (p : Provider) (code : CodeView) (hw : CodeWF code) (n : Nat) (s : State)
     (hr : Ready s) (hd : RunDom p code n s) :
     Ready (run p code n s).2 ∧ ∀ o ∈ (run p code n s).1, match o with | .panic _ => False | _ => True :=
   let h := run_log p code hw n s hr hd
@@ -186,9 +253,9 @@ theorem related_at_start {p : Provider} {code : CodeView} {σ : St} {s0 : State}
 (before and after constant folding) are well formed -/
 theorem code_of_image_wellformed {blocks : List (Nat × List UInt8)} {code : CodeView}
     (h : liftCode blocks = some code) :
-    CodeWF code ∧ ∀ ins ∈ code, ∃ e word, LiftedFrom ins e word ∧
+    CodeWF code ∧ CodeSW code ∧ ∀ ins ∈ code, ∃ e word, LiftedFrom ins e word ∧
       ∀ ef ∈ e.validEffects ⟨ins.addr, word⟩, Effect.wfE ef := by
-  refine ⟨codeWF_of_liftCode h, fun ins hins => ?_⟩
+  refine ⟨codeWF_of_liftCode h, codeSW_of_liftCode h, fun ins hins => ?_⟩
   obtain ⟨e, word, hl⟩ := liftCode_lifted blocks code h ins hins
   exact ⟨e, word, hl, hl.wf.1⟩
 
@@ -244,5 +311,24 @@ example :
         some ([], [], [⟨"memory", 8192, [5, 0, 0, 0, 0, 0, 0, 0]⟩]),
         some ([], [("x3", [0, 0, 0, 0, 0, 0, 0, 0])], []),
         none] := by decide +kernel
+
+/-- the provider of the console scenario of F45: every register is answered with `0xff…ff` -/
+def topProv : Provider := ⟨fun _ w => List.replicate w 0xff, fun _ _ w => List.replicate w 9⟩
+
+set_option maxRecDepth 100000 in
+set_option synthInstance.maxSize 2048 in
+/-- REPAIR F45, non-vacuity of the access error: `lb x3,-1(x0)` (one byte at `2^64 - 1`: the end is exactly
+`2^64`) and `lw x3,0(x2)` with `x2` answered `0xff…ff` by the provider (the end wraps) — from the state the tool
+starts with, `Step` returns the access error naming the access; the provider call of the second one stays in the
+state (`x2` is known afterwards), register `x3` is not written, the instruction pointer is still `0x1000` -/
+example :
+    [[0x83, 0x01, 0xf0, 0xff], [0x83, 0x21, 0x01, 0x00]].map (fun word =>
+      (liftCode [(4096, word)]).map fun code =>
+        match step topProv code (Emulator.new 4096 (toolState [] [])) with
+        | .accessErr s log a w =>
+          some (log, a, w, s.regs.map (·.1), match mustIP s with | .ok ip => some ip | .error _ => none)
+        | _ => none)
+    = [some (some ([], 2 ^ 64 - 1, 1, [Emulator.ipKey], some 4096)),
+       some (some ([.reg "x2" 8], 2 ^ 64 - 1, 4, [Emulator.ipKey, "x2"], some 4096))] := by decide +kernel
 
 end Mltwist.Props.C03
